@@ -44,3 +44,35 @@ Definition run_spec_list_unary (fo : float_oracle) (defs : listdefs) (op : nop) 
             end
   | _ => T "no-spec"
   end.
+
+(* ---------- source-level expressions (the compile + play stream) ---------- *)
+Inductive expr :=
+| ELit (v : sval)
+| EUn (op : nop) (e : expr)
+| EBin (op : nop) (a b : expr).
+
+Fixpoint spec_eval (fo : float_oracle) (e : expr) : sres :=
+  match e with
+  | ELit v => ROk v
+  | EUn op a =>
+      match spec_eval fo a with
+      | ROk v => spec_scalar_op fo op [v]
+      | RErr => RErr
+      end
+  | EBin op a b =>
+      match spec_eval fo a with
+      | ROk va =>
+          match spec_eval fo b with
+          | ROk vb => spec_scalar_op fo op [va; vb]
+          | RErr => RErr
+          end
+      | RErr => RErr
+      end
+  end.
+
+(* the line  A{expr}B  *)
+Definition run_spec_expr (fo : float_oracle) (e : expr) : text :=
+  match spec_eval fo e with
+  | ROk v => T "ok(" ++ quote_text (T "A" ++ spec_display fo v ++ T "B" ++ [10%N]) ++ T ")"
+  | RErr => T "err(InvalidState)"
+  end.
